@@ -313,6 +313,7 @@ func (in *Interp) call(fn *ssa.Function, args []Val, free []Val) Val {
 	in.depth++
 	in.stack = append(in.stack, fn)
 	if traceCalls && !in.initMode {
+		dbgInterp = in
 		fmt.Fprintf(os.Stderr, "%*scall %s %v\n", in.depth, "", fn.String(), dbgVals(args))
 	}
 	res := in.run(fr)
@@ -755,6 +756,7 @@ func (in *Interp) unop(x *ssa.UnOp, v Val) Val {
 }
 
 var traceCalls = os.Getenv("GOSYM_TRACE") != ""
+var dbgInterp *Interp
 
 func dbgVals(vs []Val) string {
 	var parts []string
@@ -773,7 +775,11 @@ func dbgVals(vs []Val) string {
 		case *SliceV:
 			parts = append(parts, fmt.Sprintf("slice(%s+%d,len %d,cap %d)", x.obj.name, x.off, x.len, x.cap))
 		case *Iface:
-			parts = append(parts, "iface("+x.typ.String()+")")
+			if dbgInterp != nil {
+				parts = append(parts, "iface("+dbgInterp.describe(v)+")")
+			} else {
+				parts = append(parts, "iface("+x.typ.String()+")")
+			}
 		case Tuple:
 			parts = append(parts, "("+dbgVals(x)+")")
 		default:
